@@ -307,7 +307,19 @@ def run_impl(case):
             pass
         x = list(case["x"])
         y = con(x)
-        return {"y": _floats(y), "text": txt, "nsolvers": len(solv)}
+        out = {"y": _floats(y), "text": txt, "nsolvers": len(solv)}
+        # the same relations handed over as a tuple of strings ("constraints may be a tuple of strings"): generate_solvers returns a
+        # nested tuple of solvers and generate_constraint flattens it: the compiled function must be the same function
+        lines = [l for l in txt.split("\n") if l.strip()]
+        if len(lines) >= 2:
+            h = (len(lines) + 1) // 2
+            try:
+                solv2 = ms.generate_solvers(("\n".join(lines[:h]), "\n".join(lines[h:])), variables=A.mystic_variables(case["scheme"]), nvars=case["nvars"],
+                                            locals=locs if (locs or case["tl"] is not None) else None)
+                out["y_grouped"] = _floats(ms.generate_constraint(solv2)(list(case["x"])))
+            except Exception as e:
+                out["y_grouped"] = {"error": type(e).__name__, "msg": str(e)[:200]}
+        return out
     except Exception as e:
         return {"error": type(e).__name__, "msg": str(e)[:200], "text": txt}
 
@@ -374,6 +386,11 @@ def oracle(case, obs):
         return [_fail("holds_after", "symbolic.generate_constraint", "nan-output", y)]
     if case["kind"] == "bounds":
         return _oracle_bounds(case, x, y, obs)
+    _lhs = [l["lhs"] for l in case["lines"]]
+    _independent = len(set(_lhs)) == len(_lhs) and not any(set(A.evars(l["rhs"])) & set(_lhs) for l in case["lines"])
+    if _independent and "y_grouped" in obs and obs["y_grouped"] != y and not (isinstance(obs["y_grouped"], list) and [repr(v) for v in obs["y_grouped"]] == [repr(v) for v in y]):
+        out.append(_fail("holds_after", "symbolic.generate_constraint", "tuple-of-strings-path-differs-from-one-text",
+                         dict(one_text=y, tuple_of_strings=obs["y_grouped"])))
     tol, rel = A.tolrel(case["tl"])
     lines = case["lines"]
     lhs = [l["lhs"] for l in lines]
